@@ -356,6 +356,51 @@ func sameDump(a, b *keyDump, ta0, ta1, tb0, tb1 int64) bool {
 	return true
 }
 
+// objMatchesDump: type and content of the model's object equal what was read from the SUT (deadlines aside).
+func objMatchesDump(o *model.Obj, k *keyDump) bool {
+	if k == nil || k.Type == "none" || k.Type == "" {
+		return o == nil
+	}
+	if o == nil {
+		return false
+	}
+	switch k.Type {
+	case "string":
+		return o.T == model.TString && string(o.S) == k.Str
+	case "list":
+		if o.T != model.TList || len(o.L) != len(k.List) {
+			return false
+		}
+		for i := range o.L {
+			if string(o.L[i]) != k.List[i] {
+				return false
+			}
+		}
+		return true
+	case "hash":
+		if o.T != model.THash || len(o.H) != len(k.Hash) {
+			return false
+		}
+		for f, v := range k.Hash {
+			if mv, ok := o.H[f]; !ok || mv != v {
+				return false
+			}
+		}
+		return true
+	case "set":
+		if o.T != model.TSet || len(o.Set) != len(k.Set) {
+			return false
+		}
+		for mm := range k.Set {
+			if _, ok := o.Set[mm]; !ok {
+				return false
+			}
+		}
+		return true
+	}
+	return false
+}
+
 // resyncKey overwrites the model's object with what the SUT holds.
 func resyncKey(m *model.Model, db int, key string, k *keyDump, d0, d1 int64) {
 	if k == nil {
@@ -471,8 +516,9 @@ type diffEnv struct {
 	// lastDiverged: the last step diverged (reply or state, known finding or not); scripts use it to give the
 	// connection a fresh session, because session state (MULTI, selected db) cannot be resynchronised from dumps
 	lastDiverged bool
-	dbsSeen      map[int]bool    // databases that were ever selected or written to: all of them are dumped
-	prevs        map[int]*dbDump // previous dump per database (M-inert)
+	dumps        map[string]string // last DUMP payload per key name (see DumpOf)
+	dbsSeen      map[int]bool      // databases that were ever selected or written to: all of them are dumped
+	prevs        map[int]*dbDump   // previous dump per database (M-inert)
 }
 
 // addConn opens another connection to the same emulator (its own session) and returns its index.
@@ -564,6 +610,45 @@ func priorTypeOf(m *model.Model, db int, args []string, now int64) string {
 	return o.T.String()
 }
 
+// DumpOf is the placeholder a generator puts where RESTORE takes its payload: the driver replaces it by the payload the
+// emulator returned for the most recent DUMP of that key name (or by a payload no DUMP ever returned).
+func DumpOf(key string) string { return "\x00dump-of:" + key }
+
+func (d *diffEnv) substDumps(args []string) []string {
+	var out []string
+	for i, a := range args {
+		if strings.HasPrefix(a, "\x00dump-of:") {
+			if out == nil {
+				out = append([]string{}, args...)
+			}
+			p, ok := d.dumps[a[len("\x00dump-of:"):]]
+			if !ok {
+				p = "\x01\x01never-dumped"
+			}
+			out[i] = p
+		}
+	}
+	if out == nil {
+		return args
+	}
+	return out
+}
+
+// noteDumps remembers DUMP payloads by key name (for the placeholder) and registers them with the model.
+func (d *diffEnv) noteDumps(args []string, exp model.Exp, got resp.Value) {
+	d.m.RegisterDumps(exp, got)
+	if strings.EqualFold(args[0], "DUMP") && len(args) == 2 && (got.Kind == '$' || got.Kind == '=') && !got.Null {
+		if d.dumps == nil {
+			d.dumps = map[string]string{}
+		}
+		d.dumps[args[1]] = string(got.Str)
+		d.r.Count("dump_payloads_obtained", 1)
+	}
+	if strings.EqualFold(args[0], "RESTORE") && got.Kind == '+' {
+		d.r.Count("values_created_by_restore", 1)
+	}
+}
+
 // step sends one command, compares reply and state with the model.
 // Returns the reply and whether the environment is still usable.
 func (d *diffEnv) step(args []string) (resp.Value, bool) { return d.stepOn(0, args) }
@@ -579,6 +664,7 @@ func (d *diffEnv) stepOn(ci int, args []string) (resp.Value, bool) {
 	}
 	r := d.r
 	d.steps++
+	args = d.substDumps(args)
 	tag := cmdTag(args)
 	wasMulti := sess.InMulti
 	t0 := time.Now().UnixMilli()
@@ -586,6 +672,9 @@ func (d *diffEnv) stepOn(ci int, args []string) (resp.Value, bool) {
 	t1 := time.Now().UnixMilli()
 	prior := priorTypeOf(d.m, sess.DB, args, t0)
 	exp, ambiguous := d.m.ApplyI(sess, args, t0, t1)
+	if err == nil {
+		d.noteDumps(args, exp, got)
+	}
 	if err != nil {
 		d.dead = true
 		d.log = append(d.log, stepRecord{args, "ERROR: " + err.Error(), exp.String()})
@@ -816,12 +905,22 @@ func (d *diffEnv) compareDB(db int, args []string, tag, prior string, got resp.V
 	if diverged || resync || *divergedAny {
 		// continue from the SUT's state so that one divergence does not cascade
 		r.Count("resyncs", 1)
+		// a key that the system under test holds differently from the model was modified there by a step the model did
+		// not perform (or performed differently): the model's sessions watching it must see it as changed, otherwise the
+		// first divergence comes back as a disagreement about somebody's EXEC many steps later
 		for k := range d.m.DB[db] {
 			if dump.Keys[k] == nil {
+				// (an object the model still stores although its deadline has passed is gone for both sides already)
+				if o := d.m.DB[db][k]; o.Deadline == 0 || o.Deadline > d1 {
+					d.m.Touch(db, k)
+				}
 				delete(d.m.DB[db], k)
 			}
 		}
 		for k, kd := range dump.Keys {
+			if o := d.m.DB[db][k]; !objMatchesDump(o, kd) && (o == nil || o.Deadline == 0 || o.Deadline > d1 || kd.Type != "none") {
+				d.m.Touch(db, k)
+			}
 			resyncKey(d.m, db, k, kd, d0, d1)
 		}
 	}
